@@ -189,8 +189,42 @@ def run(ctx):
             names = [norm(v) for v in vals]
             ctx.check(names[:2] == ["e_val_n", "amplitude_store"], "R1", mod, r, drv, "return", "returns the frozen buffers (e_val_n, amplitude_store)",
                       f"{drv} returns {names}: not the buffers frozen at convergence")
-        # ---- R2 done stores
+        # ---- R2 done stores (followed along the def-chain, independent of local names)
+        tuple_defs = {}
+        for st in ast.walk(f):
+            if isinstance(st, ast.Assign) and isinstance(st.targets[0], ast.Tuple) and isinstance(st.value, ast.Call):
+                for e in st.targets[0].elts:
+                    if isinstance(e, ast.Name):
+                        tuple_defs.setdefault(e.id, []).append(st.value)
+        params = [a.arg for a in f.args.args]
+        tol_param = "root_tol" if "root_tol" in params else None
+
+        def reduce_over_roots(e):
+            """X if e says 'no root of the molecule is flagged in X' with a reduction over the root axis only"""
+            t = e
+            neg = False
+            if isinstance(t, ast.UnaryOp) and isinstance(t.op, ast.Invert):
+                t, neg = t.operand, True
+            def dim1(call):
+                return [norm(a) for a in call.args] == ["1"] or any(kw.arg == "dim" and norm(kw.value) == "1" for kw in call.keywords)
+            if neg and isinstance(t, ast.Call) and callee_attr(t) == "any" and isinstance(t.func, ast.Attribute) and dim1(t):
+                return t.func.value
+            if not neg and isinstance(t, ast.Compare) and isinstance(t.ops[0], ast.Eq) and norm(t.comparators[0]) == "0" and \
+                    isinstance(t.left, ast.Call) and callee_attr(t.left) == "sum" and isinstance(t.left.func, ast.Attribute) and dim1(t.left):
+                return t.left.func.value
+            if not neg and isinstance(t, ast.Call) and callee_attr(t) == "all" and isinstance(t.func, ast.Attribute) and dim1(t):
+                inner = t.func.value
+                if isinstance(inner, ast.UnaryOp) and isinstance(inner.op, ast.Invert):
+                    return inner.operand
+            return None
+
+        def one_def(e):
+            if isinstance(e, ast.Name) and len(defs.get(e.id, [])) == 1:
+                return defs[e.id][0]
+            return None
+
         n_first = n_stag = 0
+        flagged_names = []
         for st in ast.walk(f):
             if not (isinstance(st, ast.Assign) and isinstance(st.targets[0], ast.Subscript) and norm(st.targets[0].value) == "done"):
                 continue
@@ -200,61 +234,83 @@ def run(ctx):
                 ctx.fail("R2", mod, st, drv, st, f"done is assigned a computed value `{short(norm(st.value))}`")
                 continue
             sel = st.targets[0].slice
-            if isinstance(sel, ast.Name) and len(defs.get(sel.id, [])) == 1 and not isinstance(mod.parents.get(st), ast.If):
-                conj = _conjuncts(defs[sel.id][0])
+            seldef = one_def(sel)
+            if seldef is not None and not isinstance(mod.parents.get(st), ast.If):
+                conj = _conjuncts(seldef)
                 has_nd = any(_is_not_done(c) for c in conj)
                 conv = [c for c in conj if not _is_not_done(c)]
-                ok_conv = False
-                why = ""
-                if len(conv) == 1 and isinstance(conv[0], ast.Name) and len(defs.get(conv[0].id, [])) == 1:
-                    mc = defs[conv[0].id][0]
-                    t = norm(mc).replace(" ", "")
-                    ok_conv = t in ("roots_not_converged.sum(dim=1)==0", "~roots_not_converged.any(dim=1)", "(~roots_not_converged).all(dim=1)",
-                                    "roots_not_converged.sum(1)==0", "~roots_not_converged.any(1)")
-                    why = t
-                ctx.check(has_nd and ok_conv, "R2", mod, st, drv, f"done[{sel.id}] = True",
-                          f"first-convergence store: {sel.id} = (~done) & (no root of the molecule is unconverged; reduction over roots only)",
-                          f"done[{sel.id}] = True with {sel.id} = {short(norm(defs[sel.id][0]))} ({why}): the flag is not 'every root of this molecule has a small residual'")
+                X = None
+                if len(conv) == 1:
+                    cdef = one_def(conv[0]) if isinstance(conv[0], ast.Name) else conv[0]
+                    X = reduce_over_roots(cdef) if cdef is not None else None
+                ctx.check(has_nd and X is not None, "R2", mod, st, drv, f"done[{norm(sel)}] = True",
+                          f"first-convergence store: {norm(sel)} = (~done) & (no root flag of the molecule is set in `{norm(X) if X is not None else '?'}`; reduction over roots only)",
+                          f"done[{norm(sel)}] = True with {norm(sel)} = {short(norm(seldef))}: the flag is not '(~done) & every root of this molecule passed the residual test'")
+                if X is not None:
+                    flagged_names.append(X)
                 n_first += 1
             else:
-                ctrl = [(norm(a).replace(" ", ""), pol) for a, pol, _ in controlling(mod, st, stop=L.stmt)]
-                stag = any(t in ("vend[i]-vstart[i]==0", "vend[i]==vstart[i]") and pol for t, pol in ctrl)
+                ctrl = [(a, pol) for a, pol, _ in controlling(mod, st, stop=L.stmt)]
+                def is_stag(a):
+                    # subspace did not grow: vend[i] - vstart[i] == 0 / vend[i] == vstart[i]
+                    if not (isinstance(a, ast.Compare) and isinstance(a.ops[0], ast.Eq)):
+                        return False
+                    t = norm(a).replace(" ", "")
+                    return "vend[" in t and "vstart[" in t and (t.endswith("==0") or "==vstart[" in t or "==vend[" in t)
+                stag = any(is_stag(a) and pol for a, pol in ctrl)
                 ctx.check(stag, "R2", mod, st, drv, f"done[{norm(sel)}] = True (stagnation)",
                           "inventoried stagnation exit: no correction vector survived orthogonalisation, the subspace cannot grow for this molecule",
-                          f"done[{norm(sel)}] = True under {ctrl}: a molecule is flagged converged by something other than the residual test or the stagnation exit")
+                          f"done[{norm(sel)}] = True under {[(short(norm(a)), p_) for a, p_ in ctrl]}: a molecule is flagged converged by something other than the residual test or the stagnation exit")
                 n_stag += 1
         ctx.check(n_first == 1, "R2", mod, f, drv, "first-convergence store", "exactly one first-convergence store", f"{n_first} first-convergence stores")
-        # residual test
-        rnc = defs.get("roots_not_converged", [])
-        if len(rnc) != 1:
-            ctx.fail("R2", mod, f, drv, "roots_not_converged", "roots_not_converged is not defined exactly once")
-        else:
-            conj = _conjuncts(rnc[0])
+        # residual test behind the root flags
+        for X in flagged_names:
+            xdef = one_def(X)
+            if xdef is None:
+                ctx.fail("R2", mod, f, drv, f"{norm(X)}", f"the root flags `{norm(X)}` are not defined exactly once")
+                continue
+            conj = _conjuncts(xdef)
             cmpn = [c for c in conj if isinstance(c, ast.Compare)]
             extra = [c for c in conj if not isinstance(c, ast.Compare)]
-            ok_ = len(cmpn) == 1 and isinstance(cmpn[0].ops[0], (ast.Gt, ast.GtE)) and norm(cmpn[0].left) == "resid_norm" and norm(cmpn[0].comparators[0]) == "root_tol"
-            params = [a.arg for a in f.args.args]
-            ok_ = ok_ and "root_tol" in params and "root_tol" not in defs
-            ok_extra = all(isinstance(c, ast.Name) and c.id == "active_root_mask" for c in extra)
-            ctx.check(ok_ and ok_extra, "R2", mod, f, drv, f"roots_not_converged = {short(norm(rnc[0]))}",
+            R = None
+            ok_ = False
+            if len(cmpn) == 1 and len(cmpn[0].ops) == 1:
+                c = cmpn[0]
+                if isinstance(c.ops[0], (ast.Gt, ast.GtE)) and norm(c.comparators[0]) == tol_param:
+                    R, ok_ = c.left, True
+                elif isinstance(c.ops[0], (ast.Lt, ast.LtE)) and norm(c.left) == tol_param:
+                    R, ok_ = c.comparators[0], True
+            ok_ = ok_ and tol_param is not None and tol_param not in defs
+            # extra conjuncts may only restrict to requested roots (a boolean mask that is not derived from the residual)
+            ok_extra = all(isinstance(c, ast.Name) and "mask" in c.id for c in extra)
+            ctx.check(ok_ and ok_extra, "R2", mod, f, drv, f"{norm(X)} = {short(norm(xdef))}",
                       "a root counts as converged iff its residual norm is <= the caller's root_tol (parameter, not rescaled)",
-                      f"roots_not_converged = {short(norm(rnc[0]))}: the residual is not compared with the requested tolerance itself")
-        # residual formula
-        rd = defs.get("residual", [])
-        if rd:
-            v = rd[0]
-            ok_ = isinstance(v, ast.BinOp) and isinstance(v.op, ast.Sub) and "HV" in norm(v.left) and "e_vec_n" in norm(v.left) and \
-                isinstance(v.right, ast.BinOp) and isinstance(v.right.op, ast.Mult) and {"amplitudes", "e_val_n"} <= {n for n in names_in(v.right)}
-            ctx.check(ok_, "R2", mod, f, drv, "residual", "residual = (H V) c - theta (V c)", f"residual = {short(norm(v))} is not H V c - theta V c")
-            rn = defs.get("resid_norm", [])
-            ok_ = len(rn) == 1 and isinstance(rn[0], ast.Call) and (call_name(rn[0]) or "") in ("torch.linalg.vector_norm", "torch.norm", "torch.linalg.norm") and \
-                norm(rn[0].args[0]) == "residual" and any(kw.arg == "dim" and norm(kw.value) == "2" for kw in rn[0].keywords)
-            ctx.check(ok_, "R2", mod, f, drv, "resid_norm", "resid_norm is a vector norm of the residual over the amplitude axis", f"resid_norm = {[short(norm(x)) for x in rn]}")
-        else:
-            # RPA: residual norms come from calc_rpa_residue
-            rn = [st for st in ast.walk(f) if isinstance(st, ast.Assign) and isinstance(st.targets[0], ast.Tuple) and "resid_norm" in [norm(e) for e in st.targets[0].elts]]
-            ok_ = len(rn) == 1 and isinstance(rn[0].value, ast.Call) and (call_name(rn[0].value) or "") == "calc_rpa_residue"
-            ctx.check(ok_, "R2", mod, f, drv, "resid_norm", "resid_norm comes from calc_rpa_residue", "resid_norm is not produced by calc_rpa_residue")
+                      f"{norm(X)} = {short(norm(xdef))}: the residual is not compared with the requested tolerance itself")
+            if R is None:
+                continue
+            rdef = one_def(R)
+            if rdef is not None:
+                ok_ = isinstance(rdef, ast.Call) and (call_name(rdef) or "") in ("torch.linalg.vector_norm", "torch.norm", "torch.linalg.norm") and rdef.args and \
+                    any(kw.arg == "dim" and norm(kw.value) in ("2", "-1") for kw in rdef.keywords)
+                ctx.check(ok_, "R2", mod, f, drv, f"{norm(R)}", f"{norm(R)} is a vector norm over the amplitude axis", f"{norm(R)} = {short(norm(rdef))} is not a norm of the residual over the amplitude axis")
+                if ok_:
+                    res = rdef.args[0]
+                    v = one_def(res)
+                    good = False
+                    if v is not None and isinstance(v, ast.BinOp) and isinstance(v.op, ast.Sub) and isinstance(v.right, ast.BinOp) and isinstance(v.right.op, ast.Mult):
+                        lnames, rnames = set(names_in(v.left)), set(names_in(v.right))
+                        # left: subspace eigenvectors contracted with H*V; right: (eigenvectors contracted with V) * eigenvalues -- they must share the eigenvector source
+                        amp = [n for n in rnames if one_def(ast.Name(id=n, ctx=ast.Load())) is not None and "einsum" in norm(one_def(ast.Name(id=n, ctx=ast.Load())))]
+                        shared = set()
+                        for n in amp:
+                            shared |= set(names_in(one_def(ast.Name(id=n, ctx=ast.Load())))) & lnames
+                        good = "HV" in lnames and bool(shared) and "e_val_n" in rnames
+                    ctx.check(good, "R2", mod, f, drv, f"{norm(res)}", "residual = (H V) c - theta (V c) with the same subspace eigenvectors c on both sides",
+                              f"residual `{norm(res)}` = {short(norm(v)) if v is not None else '?'} is not H V c - theta V c")
+            else:
+                srcs = tuple_defs.get(norm(R), [])
+                ok_ = len(srcs) == 1 and (call_name(srcs[0]) or "") == "calc_rpa_residue"
+                ctx.check(ok_, "R2", mod, f, drv, f"{norm(R)}", f"{norm(R)} comes from calc_rpa_residue", f"{norm(R)} is not produced by the RPA residual routine")
 
         # ---- R3 freeze
         funcs_to_scan = [(f, defs, drv)]
